@@ -115,6 +115,12 @@ CHECKS = {
   note="Enumerated small layouts (TLC 32-bit integers; a 47-bit constant is added to the bias by the harness). The Apalache unbounded-integer check planned in DESIGN.md was not built. ELF user space only.",
   technique="TLA+ loader-semantics specification enumerated by TLC; cases replayed on the real binutils/elfexec code with synthetic ELF files and a fake nm",
   design_ref="DESIGN.md 5/C13"),
+ "C14": dict(
+  category="model_checking",
+  text="Legacy.tla models an abstract legacy document (format, header variant, records of counts/sizes/stack addresses, rate/period/clock, memory-map form) and states the documented conversion as operators: one sample per record in order (threadz same-as-previous adds one to the preceding sample), call sites moved back by one with the leaf left alone for binary CPU and threadz, the named deviations StripSignalFrame (second frame shared by all but n/32 samples, twice) and DropDuplicatedLeaf, values raw / x period / unsampled / cycles->ns (float rules named, evaluated independently by the harness), the block-size label, the period, and the mapping each address falls in. TLC checks the rules' well-formedness (one sample per record, leaf kept, addresses drawn from the input in order, every thread counted once) and enumerates the documents; a printer per format renders each in several surface variants and the real profile.ParseData must return exactly the expected samples.",
+  note="Printers exist for Go count, heap (heapprofile, heap_v2, heapz_v2, heap), contention/mutex, threadz and binary CPU (4 encodings); Java formats and growth/fragmentation headers are not rendered. Bounded record counts and small address sets.",
+  technique="TLA+ conversion-rule specification enumerated by TLC; documents rendered by format printers and parsed by the real profile.ParseData",
+  design_ref="DESIGN.md 5/C14"),
 }
 
 NOT_YET = "check not built yet in this session (planned in DESIGN.md section 5)"
